@@ -332,13 +332,13 @@ def parse_text(text, as_type=False, reset_resources=False):
     ctx = Context(allow_unregistered=True)
     ctx.load_dialect(Builtin)
     try:
-        with quiet():
+        with quiet(), G.time_limit():
             p = Parser(ctx, text)
             a = p.parse_type() if as_type else p.parse_attribute()
             if p._current_token.kind is not MLIRTokenKind.EOF:
                 return None
             return a
-    except ParseError:
+    except (ParseError, G.ParseTimeout):
         return None
 
 
@@ -609,7 +609,29 @@ def near_s():
 
     it = st.tuples(wrap_s, st.sampled_from([1, 2, 8, 16, 32, 64, 128]), st.integers(0, 2 ** 130),
                    st.just(0)).map(ints)
-    return st.one_of(fl, fl, fl, it)
+    # same payload under two different types / two types differing in one parameter
+    small_int_ty = st.one_of(st.tuples(st.just("i"), st.sampled_from([8, 16, 32, 64, 128]),
+                                       st.integers(0, 2)).map(list), st.just(["index"]))
+
+    def typed(args):
+        w, kind, v, t1, t2, n1, n2, f = args
+        if kind == "int":
+            a, b = ["int", v, t1], ["int", v, t2]
+        elif kind == "float":
+            a, b = ["float", f, n1], ["float", f, n2]
+        elif kind == "dense":
+            a = ["dense", ["tensor", t1, [2], None], [v], "splat"]
+            b = ["dense", ["tensor", t2, [2], None], [v], "splat"]
+        elif kind == "shaped":
+            a, b = ["tensor", t1, [2], None], ["vector", t1, [2], [0]]
+        else:
+            a, b = ["tensor", t1, [2], None], ["tensor", t2, [2], None]
+        return {"kind": "near", "wrap": w, "a": a, "b": b}
+
+    ty = st.tuples(wrap_s, st.sampled_from(["int", "int", "float", "dense", "shaped", "elt"]),
+                   st.integers(0, 100), small_int_ty, small_int_ty, name, name,
+                   st.one_of(conf, G.fspec_s("f16"))).map(typed)
+    return st.one_of(fl, fl, fl, it, ty, ty)
 
 
 def text_s():
